@@ -257,7 +257,7 @@ func Normalize(s Spec) Spec {
 		// N3 witnesses are supported by every handler but GET; keep them to the
 		// plain cases and to the defects that make sense for a witness
 		switch {
-		case s.Op == OpGet, s.Session != SessionNone, s.Trusted:
+		case s.Op == OpGet, s.Session != SessionNone, s.Trusted, s.Op == OpPut && (s.Cnr == CnrSticky || d == DefSticky):
 			s.Scheme = SchemeSHA512
 		case d != DefNone && d != DefBodySigFlip && d != DefMetaSigFlip && d != DefBodyChanged && d != DefMetaChanged &&
 			d != DefBasicACL && d != DefEACLRequest && !d.IsBearer():
